@@ -574,7 +574,8 @@ pub fn check(property: &str, tier: Tier) -> i32 {
         (_, Tier::Quick) => (600, Duration::from_secs(30)),
         (_, Tier::Thorough) => (3000, Duration::from_secs(120)),
     };
-    let replay_dir = verif_dir().join("replays");
+    // (mutation trials redirect replays and evidence so the committed files stay those of the real tree)
+    let replay_dir = std::env::var("VERIF_REPLAY_DIR").map(PathBuf::from).unwrap_or_else(|_| verif_dir().join("replays"));
     let mut reported: Vec<Value> = vec![];
     let mut new_violations = 0u64;
     let mut known_hits: Vec<String> = vec![];
@@ -738,7 +739,7 @@ pub fn check(property: &str, tier: Tier) -> i32 {
         "wall_s": wall,
         "violations": new_violations,
     });
-    let evdir = verif_dir().join("evidence");
+    let evdir = std::env::var("VERIF_EVIDENCE_DIR").map(PathBuf::from).unwrap_or_else(|_| verif_dir().join("evidence"));
     let _ = std::fs::create_dir_all(&evdir);
     let evpath = evdir.join(format!("{property}.json"));
     if let Err(e) = std::fs::write(&evpath, serde_json::to_string_pretty(&evidence).unwrap()) {
